@@ -167,6 +167,9 @@ class Run:
         def create():
             # LIFO: a reconnect() nested in a callback of an outer reconnect() reaches _create_socket first
             if self.fail and self.fail.pop():
+                # the exception is recorded where it is raised: _handle_connack's immediate retry catches it itself
+                self.flush()
+                self.ev.append([12, 0, 0, 0, 0, 0])
                 raise ConnectionRefusedError(111, "refused")
             self.nsock += 1
             s = Sock(self, self.nsock)
@@ -265,8 +268,7 @@ class Run:
             try:
                 c.reconnect()
             except OSError:
-                self.flush()
-                self.ev.append([12, 0, 0, 0, 0, 0])
+                pass
 
     def project(self):
         c = self.c
@@ -358,9 +360,7 @@ class Run:
             self.flush()
             ev.append([11, int(rc), 0, 0, 0, 0])
         except OSError:
-            self.flush()
-            if not (ev and ev[-1][0] == 12 and False):
-                ev.append([12, 0, 0, 0, 0, 0])
+            pass
         self.flush()
         ev.append(self.obs(0))
         self.fail.clear()
